@@ -306,6 +306,9 @@ fn directed(t: &Ty) -> Vec<Vec<Pat>> {
                 vec![Pat::Incl(5, *hi)],
                 vec![Pat::Incl(*lo, -1), Pat::Incl(1, *hi)],
                 vec![Pat::Incl(*lo, -1), Pat::Int(0), Pat::Incl(1, *hi)],
+                vec![Pat::Incl(*lo + 1, -1), Pat::Int(0), Pat::Incl(1, *hi)],
+                vec![Pat::Incl(*lo, -1), Pat::Int(0), Pat::Incl(1, *hi - 1)],
+                vec![Pat::Int(*lo), Pat::Incl(*lo + 1, -1), Pat::Int(0), Pat::Incl(1, *hi)],
             ];
         }
         let mut out_of_range = vec![];
@@ -346,11 +349,31 @@ fn directed(t: &Ty) -> Vec<Vec<Pat>> {
             v.push(vec![Pat::Incl(*lo, -1), Pat::Int(0), Pat::Incl(1, *hi)]);
             v.push(vec![Pat::Int(*lo), Pat::Incl(*lo + 1, -1), Pat::Incl(0, *hi)]);
         }
+        // everything but one end of the type: must be rejected (the boundary values are where a one-sided or symmetric range slips)
+        v.push(vec![Pat::Incl(*lo + 1, *hi)]);
+        v.push(vec![Pat::Incl(*lo, *hi - 1)]);
+        v.push(vec![Pat::Incl(*lo + 1, mid - 1), Pat::Int(mid), Pat::Incl(mid + 1, *hi)]);
+        v.push(vec![Pat::Incl(*lo, mid - 1), Pat::Int(mid), Pat::Incl(mid + 1, *hi - 1)]);
+        v.push(vec![Pat::Incl(*lo + 1, mid), Pat::Excl(mid, *hi), Pat::Int(*hi)]);
+        // ... and with the end added as a literal: accepted
+        v.push(vec![Pat::Int(*lo), Pat::Incl(*lo + 1, mid - 1), Pat::Int(mid), Pat::Incl(mid + 1, *hi)]);
+        v.push(vec![Pat::Incl(*lo, mid - 1), Pat::Int(mid), Pat::Incl(mid + 1, *hi - 1), Pat::Int(*hi)]);
         // empty and inverted ranges match nothing
         v.push(vec![Pat::Excl(*lo, *lo), Pat::Wild]);
         v.push(vec![Pat::Excl(mid, mid), Pat::Wild]);
         v.push(vec![Pat::Incl(mid + 3, mid), Pat::Wild]);
         v
+    } else if let Ty::Tuple(ts) = t {
+        // a tuple with an integer component: the integer's directed arm lists, the other components as wildcards
+        let mut out = vec![];
+        for (i, c) in ts.iter().enumerate() {
+            if let Ty::Int(..) = c {
+                for arms in directed(c) {
+                    out.push(arms.into_iter().map(|p| Pat::Tuple((0..ts.len()).map(|j| if j == i { p.clone() } else { Pat::Wild }).collect())).collect());
+                }
+            }
+        }
+        out
     } else {
         vec![]
     }
